@@ -352,6 +352,45 @@ OP(alias_copy_down)
 }
 OP(vp_set_deep)   { return vnaproperty_set(&F->root, "a.b[2].c=1"); }
 OP(vp_del_item)   { return vnaproperty_delete(&F->root, "arr[0]"); }
+/*
+ * correlated parameters whose correlate cannot be registered when the
+ * standard is added: the add is refused, and nothing it took hold of on the
+ * way may stay held (the objects are deleted and freed afterwards)
+ */
+OP(corr_dead_correlate)
+{
+    /* the correlate's handle was deleted by the user */
+    int ps = vnacal_make_scalar_parameter(F->vcp, 0.5 - 0.1 * I);
+    int pu = vnacal_make_unknown_parameter(F->vcp, ps);
+    int pc = vnacal_make_correlated_parameter(F->vcp, pu, NULL, 1, F->sig5);
+    if (ps < 0 || pu < 0 || pc < 0)
+	return -1;
+    (void)vnacal_delete_parameter(F->vcp, pu);
+    if (F->vnpL != NULL)
+	(void)vnacal_new_add_single_reflect_m(F->vnpL, F->mp, 2, 2, pc, 1);
+    (void)vnacal_delete_parameter(F->vcp, pc);
+    return vnacal_delete_parameter(F->vcp, ps);
+}
+OP(corr_narrow_correlate)
+{
+    /* c2 is correlated with c1; c1's sigma grid is too narrow for the
+       calibration, c2's own grid covers it */
+    double narrow[2], wide[2];
+    narrow[0] = F->f3[0] * 1.2;
+    narrow[1] = F->f3[0] * 1.3;
+    wide[0] = F->f3[0] * 0.5;
+    wide[1] = F->f3[2] * 2.0;
+    int c1 = vnacal_make_correlated_parameter(F->vcp, VNACAL_SHORT, narrow, 2,
+	    F->sig5);
+    int c2 = c1 < 0 ? -1 : vnacal_make_correlated_parameter(F->vcp, c1, wide,
+	    2, F->sig5);
+    if (c2 < 0)
+	return -1;
+    if (F->vnpL != NULL)
+	(void)vnacal_new_add_single_reflect_m(F->vnpL, F->mp, 2, 2, c2, 2);
+    (void)vnacal_delete_parameter(F->vcp, c2);
+    return vnacal_delete_parameter(F->vcp, c1);
+}
 OP(vp_del_key)    { return vnaproperty_delete(&F->root, "map"); }
 OP(vp_scalar_root){ return vnaproperty_set(&F->root, ".=scalar"); }
 OP(vp_insert)     { return vnaproperty_set(&F->root, "arr[0+]=first"); }
@@ -379,6 +418,7 @@ static const struct { const char *name; op_fn *fn; } ops[] = {
     O(alias_vd_vectors), O(alias_vdf_vectors), O(alias_prop_self),
     O(alias_copy_up), O(alias_copy_down), O(alias_apply_fvec),
     O(alias_new_fvec), O(alias_vparam_fvec),
+    O(corr_dead_correlate), O(corr_narrow_correlate),
     O(vp_set_deep), O(vp_del_item), O(vp_del_key), O(vp_scalar_root),
     O(vp_insert), O(vp_copy), O(vp_import), O(vp_bad_lookup),
 };
